@@ -33,6 +33,7 @@ class Run:
         self.ref_cons = list(ref_cons or [])  # constraints only the reference knows (declared variable ranges)
         self.live = [Live(make_solver(), label="s0")]
         self.log = []  # (clock, solver index, op, outcome summary)
+        self.full_log = []  # (step, complete outcome) - for offline judging (C20)
         self.keep = keep if keep is not None else []
         self.clock = 0
         self.failed = False
@@ -158,6 +159,7 @@ class Run:
         except Exception as e:  # noqa: BLE001
             outcome = ("raise-other", repr(e)[:200], traceback.format_exc()[-1500:])
         self.log.append([self.clock, st["s"], _brief(st), _short(outcome)])
+        self.full_log.append((st, outcome))
         if op == "add" and outcome[0] != "ok":
             # the call may have taken partial effect (e.g. one of a hybrid's two frontends): what this solver holds is
             # no longer known to the reference
@@ -333,6 +335,29 @@ class Run:
             elif val is not False:
                 self.viol(st, f"{op}-not-bool", observed=repr(val))
             return
+
+
+def judge_log(res, uni_vars, full_log, pid, cfg, mode="exact"):
+    """Offline oracle: judge a recorded (step, outcome) list against the reference, without touching a solver."""
+    run = Run(res, uni_vars, lambda: None, pid, mode=mode, cfg=cfg)
+    for st, outcome in full_log:
+        if st["s"] >= len(run.live):
+            continue
+        lv = run.live[st["s"]]
+        run.clock += 1
+        run.log.append([run.clock, st["s"], _brief(st), _short(outcome)])
+        if outcome is None:
+            continue
+        if st["op"] == "add" and outcome[0] == "ok":
+            lv.cons += st["cons"]
+        elif st["op"] == "add":
+            lv.tainted = True
+        elif st["op"] == "branch" and outcome[0] == "ok":
+            run.live.append(Live(None, lv.cons, label=f"s{len(run.live)}"))
+        run.judge(st, lv, outcome)
+        if run.failed:
+            break
+    return run
 
 
 def _brief(st):
